@@ -33,6 +33,11 @@ EvOpen ==
 EvClose ==
   /\ Ev.k = "close"
   /\ Ev.c \in DOMAIN S.conns
+  (* a client that is still blocked (never served, never timed out) cannot have received a reply *)
+  /\ (IsBlocked(S.conns[Ev.c]) => S.conns[Ev.c].blocked.r.t \in {"none", "closed"})
+  (* ... and it is not left blocked long after its time-out was due (stranded client) *)
+  /\ ((IsBlocked(S.conns[Ev.c]) /\ S.conns[Ev.c].blocked.to # 0 /\ "t" \in DOMAIN Ev)
+        => Ev.t <= S.conns[Ev.c].blocked.sent + S.conns[Ev.c].blocked.to + TimeoutSlack)
   /\ S' = [S EXCEPT !.conns[Ev.c].closing = TRUE]
   /\ UNCHANGED devs
 
@@ -63,6 +68,7 @@ EvCmd ==
           \E o \in Step(S1, Ev.c, Ev.argv, tm, Ev.r) :
             /\ Match(o.r, Ev.r)
             /\ ("sr" \in DOMAIN Ev => ClientGot(Ev.r, Ev.sr))
+            /\ (("sr" \in DOMAIN Ev /\ o.r.t = "blocks") => Ev.sr.t = "none")
             /\ ("sargv" \notin DOMAIN Ev)      \* the server executed exactly the request that was sent
             /\ ("unexecuted" \notin DOMAIN Ev) \* ... and it executed every request that was sent
             /\ S' = o.S
@@ -109,6 +115,28 @@ EvConfig ==
   /\ S' = [S EXCEPT !.pass = Ev.pass]
   /\ UNCHANGED devs
 
+(* hook H4: the server delivered <<key, element>> to a blocked client / timed it out *)
+EvServed ==
+  /\ Ev.k = "served"
+  /\ \E S2 \in Served(S, Ev.c, Ev.frames[1]) : S' = S2
+  /\ UNCHANGED devs
+EvTimeout ==
+  /\ Ev.k = "timeout"
+  /\ \E S2 \in TimedOut(S, Ev.c) : S' = S2
+  /\ UNCHANGED devs
+
+(* hook H5 at a quiescent point: the registry holds exactly one registration per (blocked client, key), queued in
+   blocking order, no wake-up is pending, and nobody waits on a key that holds elements *)
+EvBlockSnap ==
+  /\ Ev.k = "blocksnap"
+  /\ Ev.wakeq = 0
+  /\ UNION {{<<Ev.regs[i].db, Ev.regs[i].key, Ev.regs[i].conns[j]>> : j \in 1..Len(Ev.regs[i].conns)} : i \in 1..Len(Ev.regs)}
+        = ExpectedRegs(S)
+  /\ \A i \in 1..Len(Ev.regs) : \A j, k \in 1..Len(Ev.regs[i].conns) :
+        j < k => S.conns[Ev.regs[i].conns[j]].blocked.ord < S.conns[Ev.regs[i].conns[k]].blocked.ord
+  /\ NoneStranded(S)
+  /\ UNCHANGED <<S, devs>>
+
 EvNote == Ev.k = "note" /\ UNCHANGED <<S, devs>>
 
 EvDropped ==  \* the client saw the server close the connection
@@ -119,7 +147,7 @@ EvDropped ==  \* the client saw the server close the connection
 TraceNext ==
   /\ l <= N
   /\ l' = l + 1
-  /\ (EvOpen \/ EvClose \/ EvReset \/ EvCmd \/ EvNote \/ EvDropped \/ EvUnlogged \/ EvChk \/ EvPush \/ EvQuiesce \/ EvGone \/ EvRaw \/ EvConfig)
+  /\ (EvOpen \/ EvClose \/ EvReset \/ EvCmd \/ EvNote \/ EvDropped \/ EvUnlogged \/ EvChk \/ EvPush \/ EvQuiesce \/ EvGone \/ EvRaw \/ EvConfig \/ EvServed \/ EvTimeout \/ EvBlockSnap)
   /\ IF l > TLCGet(1) THEN TLCSet(1, l) /\ TLCSet(3, S') ELSE TRUE   \* deepest matched event (last conjunct!)
 
 TraceSpec == TraceInit /\ [][TraceNext]_vars
